@@ -113,6 +113,10 @@ func (e *Engine) reachKnown(l string) bool {
 // load builds SSA for the package at pkgPattern (relative to dir) with the
 // given overlay files injected.
 func load(dir string, pattern string, overlay map[string][]byte) (*ssa.Program, *ssa.Package, error) {
+	os.Setenv("PATH", "/opt/veriftools/go1.26.8/bin:"+os.Getenv("PATH"))
+	os.Setenv("GOTOOLCHAIN", "local")
+	os.Setenv("GOFLAGS", "-mod=mod")
+	os.Setenv("GOPROXY", "off")
 	cfg := &packages.Config{
 		Mode:    packages.LoadAllSyntax,
 		Dir:     dir,
